@@ -58,3 +58,22 @@ Print Assumptions C17_interrupter_kept.
 Theorem C17_one_press_only : forall c r q, existsb (q_is_press_at c) (td_evict c r q) = false.
 Proof. exact td_evict_no_own_press. Qed.
 Print Assumptions C17_one_press_only.
+
+(* the eager form: the count belongs to the key.  A press of a tap-dance-eager key at position c starts a new count (first action
+   performed with one tap counted) unless an eager count of that very position is still there, whatever other position - with
+   whatever list, also the same one - the old count belonged to *)
+From KV Require Import Proofs.C06Combine Proofs.C17Eager.
+Theorem C17_eager_press_elsewhere_starts_over : forall cfg rec l a0 rest T c d os ls,
+  (match tap_dance_eager l with None => True | Some t => tde_coord t <> c end) ->
+  do_action_body cfg rec l (TapDance (a0 :: rest) T true) c d os ls =
+  ('(l', _) <- doact rec (set_tap_dance_eager (Some (fresh_dance (a0 :: rest) T c)) (lpt_update_coord c (before_action l c))) a0 c d false ls ;;
+   Ok (l', CNone)).
+Proof. exact eager_press_elsewhere_starts_over. Qed.
+Print Assumptions C17_eager_press_elsewhere_starts_over.
+
+Theorem C17_eager_press_same_position_keeps_count : forall cfg rec l a0 rest T c d os ls t,
+  tap_dance_eager l = Some t -> tde_coord t = c ->
+  do_action_body cfg rec l (TapDance (a0 :: rest) T true) c d os ls =
+  ('(l', _) <- doact rec (lpt_update_coord c (before_action l c)) a0 c d false ls ;; Ok (l', CNone)).
+Proof. exact eager_press_same_position_keeps_count. Qed.
+Print Assumptions C17_eager_press_same_position_keeps_count.
